@@ -279,7 +279,28 @@ def main():
                                   '%s: %s' % (ob.name, r['cex']['args'], rc,
                                               r2.get('status'), out[-300:]))
       elif r['status'] == 'error':
-        harness_errors.append('%s %r: %s' % (ob.name, j['fixed'], r.get('err')))
+        # machinery failure (worker died, NotDeterministic, ...): one retry in a
+        # fresh worker; a second failure is a harness error
+        r2 = run_jobs([dict(j, id=j['id'])], 1)[j['id']]
+        print('NOTE %s %r: worker error (%s); retry -> %s' % (
+            ob.name, j['fixed'], ' '.join(str(r.get('err')).split())[:200],
+            r2.get('status')))
+        if r2.get('status') == 'exhausted':
+          retried.append('%s %r: worker error, retried clean' % (ob.name, j['fixed']))
+          st['error'] -= 1
+          st['exhausted'] = st.get('exhausted', 0) + 1
+          tot['paths'] += r2.get('paths', 0) or 0
+          ob_paths += r2.get('paths', 0) or 0
+          if witness is None and r2.get('witness'):
+            witness = r2['witness']
+        elif r2.get('status') in ('timeout', 'unknown'):
+          st['error'] -= 1
+          st[r2['status']] = st.get(r2['status'], 0) + 1
+          if not ob.hunt:
+            inconclusive.append('%s %r: %s after a worker error' % (
+                ob.name, j['fixed'], r2['status']))
+        else:
+          harness_errors.append('%s %r: %s' % (ob.name, j['fixed'], r.get('err')))
       elif r['status'] in ('timeout', 'unknown'):
         if not ob.hunt:
           inconclusive.append('%s %r: %s after %d paths' % (
